@@ -3,7 +3,7 @@ from ..rules import flow
 from .common import declare
 
 RULES = ['PROPAGATE', 'FLAT-RETURN', 'BOUND-PLUMB', 'NOTIFY-ON-FREE', 'EMIT-CONVERT', 'SYNC-TRANSPORT']
-FLOORS = {'PROPAGATE': 50, 'FLAT-RETURN': 30, 'BOUND-PLUMB': 8, 'NOTIFY-ON-FREE': 1, 'EMIT-CONVERT': 3, 'SYNC-TRANSPORT': 3}
+FLOORS = {'PROPAGATE': 40, 'FLAT-RETURN': 30, 'BOUND-PLUMB': 8, 'NOTIFY-ON-FREE': 1, 'EMIT-CONVERT': 3, 'SYNC-TRANSPORT': 3}
 
 META = {
     'level': "Static value-flow analysis of every _emit/emit call site (path enumeration with an abstract shape lattice): the "
